@@ -127,10 +127,111 @@ func genFanout(t *rapid.T) FanCase {
 
 func TestFanout(t *testing.T) { vrep.Run(t, "Fanout", true, genFanout, checkFanout) }
 
+// LatePart: one part of a post or actor (replies, comments, authors, audience, outbox) is answered late - seconds after
+// the others, still within the network timeout (this unit runs with timeout_seconds = 5). Whatever the constructor
+// does about it, once it has returned the item nobody writes to it any more: a reader uses every accessor the
+// interface uses for the following seconds (seed C08-L; the race detector is the oracle, plus: what the item says
+// about its children does not change after construction).
+type LateCase struct {
+	Kind      string `json:"kind"` // post | actor
+	Slow      string `json:"slow"` // replies | comments | attributedTo | audience | outbox
+	LatencyMs int    `json:"latency_ms"`
+	ReadMs    int    `json:"read_ms"`
+}
+
+func checkLatePart(c LateCase) vrep.Result {
+	prefix := sim.NewPrefix()
+	sim.ClearRoutes()
+	u := func(path string) string { return "https://%H0%" + prefix + path }
+	slow := func(body string) *vsim.Route {
+		r := vsim.JSON(body)
+		r.Fault = &vsim.Fault{LatencyMs: c.LatencyMs}
+		return r
+	}
+	serve := func(path, body string, late bool) {
+		if late {
+			sim.Set(0, prefix+path, slow(body))
+		} else {
+			sim.Set(0, prefix+path, vsim.JSON(body))
+		}
+	}
+	person := func(path string) string {
+		return `{"id":"` + u(path) + `","type":"Person","name":"somebody","preferredUsername":"sb"}`
+	}
+	coll := func(path string) string {
+		return `{"id":"` + u(path) + `","type":"OrderedCollection","totalItems":1,"orderedItems":[{"id":"` + u(path+"/r1") + `","type":"Note","content":"a reply","inReplyTo":"` + u("/item") + `"}]}`
+	}
+	serve("/author", person("/author"), c.Slow == "attributedTo")
+	serve("/reader", person("/reader"), c.Slow == "audience")
+	serve("/replies", coll("/replies"), c.Slow == "replies" || c.Slow == "comments")
+	serve("/outbox", `{"id":"`+u("/outbox")+`","type":"OrderedCollection","totalItems":0,"orderedItems":[]}`, c.Slow == "outbox")
+	key := "replies"
+	if c.Slow == "comments" {
+		key = "comments"
+	}
+	doc := `{"id":"` + u("/item") + `","type":"Note","content":"<p>hello</p>","published":"2023-06-01T00:00:00Z","attributedTo":"` + u("/author") + `","audience":["` + u("/reader") + `"],"` + key + `":"` + u("/replies") + `"}`
+	if c.Kind == "actor" {
+		doc = `{"id":"` + u("/item") + `","type":"Person","name":"the actor","preferredUsername":"a","outbox":"` + u("/outbox") + `"}`
+	}
+	serve("/item", doc, false)
+	item, isTangible := pub.New(sim.URL(0, prefix+"/item"), nil).(pub.Tangible)
+	if !isTangible {
+		return vrep.Fail("harness: the item could not be built")
+	}
+	hadChildren := item.Children() != nil
+	stop := time.Now().Add(time.Duration(c.ReadMs) * time.Millisecond)
+	changed := make(chan string, 8)
+	var wg sync.WaitGroup
+	for r := 0; r < 1; r++ { // one reader, as the interface is (it renders under its lock): Markup.Render caches and is not meant to be called concurrently
+		wg.Add(1)
+		go func(r int) {
+			defer wg.Done()
+			for time.Now().Before(stop) {
+				item.String(40 + r)
+				item.Preview(30 + r)
+				item.Name()
+				item.Timestamp()
+				item.SelectLink(1)
+				if (item.Children() != nil) != hadChildren {
+					select {
+					case changed <- fmt.Sprintf("Children() was nil=%v when the constructor returned and is nil=%v %d ms later", !hadChildren, hadChildren, c.ReadMs):
+					default:
+					}
+					return
+				}
+				time.Sleep(3 * time.Millisecond)
+			}
+		}(r)
+	}
+	wg.Wait()
+	sim.Quiesce()
+	classes := []string{"kind:" + c.Kind, "slow:" + c.Slow, fmt.Sprintf("latency>2s:%v", c.LatencyMs > 2000)}
+	select {
+	case msg := <-changed:
+		return vrep.Result{Classes: classes, Err: fmt.Errorf("%s whose %s is answered after %d ms: %s", c.Kind, c.Slow, c.LatencyMs, msg)}
+	default:
+	}
+	return vrep.Result{Classes: classes, Nontrivial: c.LatencyMs > 1000}
+}
+
+func genLatePart(t *rapid.T) LateCase {
+	c := LateCase{Kind: "post", Slow: rapid.SampledFrom([]string{"replies", "replies", "comments", "attributedTo", "audience"}).Draw(t, "slow")}
+	if rapid.IntRange(0, 4).Draw(t, "actor") == 0 {
+		c.Kind, c.Slow = "actor", "outbox"
+	}
+	c.LatencyMs = rapid.SampledFrom([]int{2300, 2300, 1100, 3200, 600}).Draw(t, "latency")
+	c.ReadMs = 1500
+	return c
+}
+
+func TestLatePart(t *testing.T) { vrep.Run(t, "LatePart", true, genLatePart, checkLatePart) }
+
 func TestReplay(t *testing.T) {
 	switch vrep.ReplayCheckName() {
 	case "Fanout":
 		vrep.Replay(t, "Fanout", checkFanout)
+	case "LatePart":
+		vrep.Replay(t, "LatePart", checkLatePart)
 	default:
 		// schedule-dependent: replay the stimulus many times
 		for i := 0; i < 25; i++ {
